@@ -47,12 +47,12 @@ impl EncoderState {
              obls=["C06.V.cobs.encoder_finalize"]),
         dict(kind="raw", name="<impl-close>", text="}\n"),
     ],
-    trailer="""
+    trailer_parts=[(["default0", "push", "finalize"], """
 fn smoke_cobs() {
     let mut e = EncoderState::default0();
     let r = e.push(5);
     let r2 = e.push(0);
     let f = e.finalize();
 }
-""",
+""")],
 )
